@@ -33,6 +33,7 @@ def generate(rng, index, tier):
     name = cat['bsd'][index % len(cat['bsd'])]
     errs = sorted(set([0] + [rng.randrange(1, 261) for _ in range(20)] + [rng.pick([35, 11, 45, 60, 102, 106, 107, 131, 255]),
                                                                               rng.pick([1 << 31, 1 << 32, (1 << 64) - 1, 4096])]))
+    errs = sorted(set(errs) | {rng.pick([0x100, 0x200, 0x300, 0x400, 0x8000, 0x10000]) | rng.randrange(0, 107) for _ in range(4)})
     if index % 12 == 0:
         errs = sorted(set(errs) | set(range(0, 128)))
     return {'decoder': name, 'errs': errs, 'arg_seed': rng.randrange(1 << 30), 'formatted': index % 9 == 0, 'small': 24, 'env': index % 7 == 1}
